@@ -123,12 +123,19 @@ func ParseConfigFile(filepath string) (Config, base.LogSchema, ConfigStats, erro
 	return conf, schema, stats, nil
 }
 
+// maxSchemaFields limits schema/maxFields: every log record allocates that many field slots
+const maxSchemaFields = 1 << 16
+
 func checkAndCreateSchema(conf Config) (base.LogSchema, error) {
 	if len(conf.Schema.Fields) == 0 {
 		return base.LogSchema{}, fmt.Errorf("schema: no fields defined")
 	}
 	if conf.Schema.MaxFields == 0 {
 		return base.LogSchema{}, fmt.Errorf("schema: no maxFields defined")
+	}
+
+	if conf.Schema.MaxFields > maxSchemaFields {
+		return base.LogSchema{}, fmt.Errorf("schema: maxFields must not exceed %d: %d", maxSchemaFields, conf.Schema.MaxFields)
 	}
 
 	logger.Infof("create schema with fields: [%s]", strings.Join(conf.Schema.Fields, ", "))
